@@ -446,9 +446,10 @@ Section DECISIONS.
   Qed.
 End DECISIONS.
 
-(* ---------- creation time of issued tickets ---------- *)
-Theorem issued_by_full_handshake_is_fresh prev now :
-  (0 <= now < 2 ^ 63)%Z -> stale now (issue_created12 false prev now) = false.
+(* ---------- creation time of issued tickets (TLS <= 1.2, the code as it is) ---------- *)
+(* no ticket opened: the issued ticket is stamped now and is fresh *)
+Theorem issued_without_opened_ticket_is_fresh now :
+  (0 <= now < 2 ^ 63)%Z -> stale now (issue_created12 None now) = false.
 Proof.
   intro H. unfold issue_created12, stale, as_int64.
   assert (E : (Z.to_N now <? 2 ^ 63)%N = true).
@@ -456,8 +457,21 @@ Proof.
   rewrite E. rewrite Z2N.id by lia. unfold ticket_lifetime. apply Z.ltb_ge. lia.
 Qed.
 
-Theorem rewrapped_ticket_keeps_age c now : issue_created12 true (Some c) now = c.
+(* a ticket that opened passes its creation time on, whether or not the handshake resumed *)
+Theorem issued_ticket_keeps_age c now : issue_created12 (Some c) now = c.
 Proof. reflexivity. Qed.
+
+(* hence "a ticket issued by a full handshake is fresh" is FALSE of the faithful model: after an
+   authentic but stale ticket the full handshake issues a ticket that is stale on arrival *)
+Theorem issued_after_stale_is_stale c now :
+  stale now c = true -> stale now (issue_created12 (Some c) now) = true.
+Proof. intro H. exact H. Qed.
+
+Theorem issued_by_full_handshake_is_fresh_refuted :
+  exists prev now, (0 <= now < 2 ^ 63)%Z /\ stale now (issue_created12 prev now) = true.
+Proof.
+  exists (Some 1700000000%N), 1700604801%Z. split; [lia|]. vm_compute. reflexivity.
+Qed.
 
 (* ---------- session-state codec: unmarshal12 inverts marshal12 ---------- *)
 Lemma be_val_snoc l b : be_val (l ++ [b]) = (be_val l * 256 + b)%N.
